@@ -764,6 +764,29 @@ func (h *anteH) apply(ctx sdk.Context, s cfgSpec) {
 		p.PoorNetworkMaxBankSend, p.MinValidators = s.poorMax, s.minVal
 		if err := app.CustomGovKeeper.SetNetworkProperties(ctx, p); err != nil {
 			h.r.Count("cfg:props-rejected")
+		} else if h.r.Rng.Intn(3) == 0 {
+			// the two freeze switches once more, one by one through SetNetworkProperty (the path of a SetNetworkProperty
+			// proposal): "on" is any non-zero number there. What is stored must be what was asked for.
+			on := []uint64{1, 1, 2, 100, 1 << 40}[h.r.Rng.Intn(5)]
+			for _, sw := range []struct {
+				id   govtypes.NetworkProperty
+				want bool
+			}{{govtypes.EnableTokenBlacklist, s.bl}, {govtypes.EnableTokenWhitelist, s.wl}} {
+				v := uint64(0)
+				if sw.want {
+					v = on
+				}
+				err := app.CustomGovKeeper.SetNetworkProperty(ctx, sw.id, govtypes.NetworkPropertyValue{Value: v})
+				now := app.CustomGovKeeper.GetNetworkProperties(ctx)
+				got := now.EnableTokenBlacklist
+				if sw.id == govtypes.EnableTokenWhitelist {
+					got = now.EnableTokenWhitelist
+				}
+				h.r.Count("oracle:C14/config/freeze-switch")
+				if err != nil || got != sw.want {
+					h.r.Fail("C14/config/freeze-switch-not-as-set", fmt.Sprintf("SetNetworkProperty(%s, %d) (err=%v): the switch reads %v, asked for %v", sw.id, v, err, got, sw.want), nil)
+				}
+			}
 		}
 	}
 	for _, t := range s.toks {
